@@ -66,6 +66,18 @@ CHECKS = {
    technique="exhaustive run-time enumeration of every table entry with inverse / uniqueness / cross-table consistency assertions (verif export hook for the rule tables, independent YAML node walk, UAPI and x/sys spot tables)",
    text="All 65536 record type codes, both errno maps, every arch name/code, every (arch, syscall) entry (also through a built rule), every rule field/operator/comparison entry against linux/audit.h, and every entry of normalizations.yaml are enumerated completely and asserted mutually inverse and consistent; categorisation and normalisation selection are re-evaluated repeatedly and concurrently. The space is finite, so the run is exhaustive (exhaustive: true). Found two misspelt record types and four non-syscall names in the YAML (repaired in /repo).",
    note="Trusted base: the exported maps/functions and the export hook show what the build contains; internal/uapi and x/sys/unix as independent references."),
+ "C08": dict(engine="simkernel", cat="fault_enumeration", ref="§5 C08",
+   technique="verdict oracle against enumerated fault plans of a simulated kernel behind the exported Netlink interface (errno x fault position x unsolicited events x transient-failure bursts x adversarial reply streams); second pass under the race detector/checkptr",
+   text="For every command method the plan fixes which errno the kernel puts on which ACK, where unsolicited sequence-0 events and EINTR/EAGAIN bursts (up to 9) occur, and whether the reply stream is malformed or foreign; the oracle demands nil exactly for errno 0 with a well-formed stream, errors.Is(err, errno) otherwise, the planned payloads for GetStatus/GetRules (compared after the single reused receive buffer was overwritten), never success or data from a foreign-sequence / wrong-type / short / truncated stream, and that a following GetStatus is still in step. Fault positions are enumerated one at a time over every datagram; combinations are sampled.",
+   note="Trusted base: the simulated kernel's script (ACK first, then data; nothing after a refusal) and the oracle. Request sequence 0 is skipped by the simulated transport."),
+ "C16": dict(engine="simkernel", cat="exploration", ref="§5 C16",
+   technique="fixed-offset decoding of every AUDIT_SET request captured at a simulated kernel + exported-constant comparison + FromWireFormat length sweep with guard-page inputs; race/checkptr pass (ASan in thorough)",
+   text="Every setter x boundary/random value x wait mode must produce exactly one AUDIT_SET with REQUEST|ACK, a 44-byte payload, exactly the UAPI mask bit and the value at the UAPI offset, all other words zero; 21 exported numbers must equal the kernel's; FromWireFormat must reject < 32 bytes with io.ErrUnexpectedEOF, otherwise decode reached fields, zero unreached ones, ignore trailing bytes and never touch memory past the buffer (input ends at a PROT_NONE page). Two exported failure-mode constants are wrong (known finding, unsafe to repair here).",
+   note="Trusted base: internal/uapi offsets and numbers (self-tested against the system header)."),
+ "C17": dict(engine="simkernel", cat="exploration", ref="§5 C17",
+   technique="reference pending-ACK list + socket close counter + returned-data snapshots over seeded operation histories against a simulated kernel, executed under the race detector with concurrent Close",
+   text="A reference list of outstanding NoWait requests decides, for each WaitForPendingACKs call, how many ACK datagrams it must consume (up to and including the first failing one), what it returns, and that it never waits on an empty socket; Close from 1-8 goroutines plus later calls must close the socket exactly once and send exactly one PID-clearing AUDIT_SET iff SetPID was used, without waiting; rule slices from GetRules are compared with snapshots after all later traffic. Found and guards the pendingAcks defect (repaired); one known finding (WaitForReply command with NoWait ACKs outstanding).",
+   note="Trusted base: simulated kernel (in-order ACKs, one reused receive buffer), the reference list, Go race detector."),
 }
 
 NOT_YET = {
@@ -110,6 +122,8 @@ def main():
              "kind_free_text": "rule request generator (text + Rule structs), independent UAPI wire decoder; constants in internal/uapi"},
             {"name": "tables", "path": "/verif/harness/internal/checks/c20.go", "serves_properties": ["C20"],
              "kind_free_text": "exhaustive table enumerator"},
+            {"name": "simkernel", "path": "/verif/harness/internal/simkernel", "serves_properties": ["C08","C16","C17","C18"],
+             "kind_free_text": "scriptable simulated kernel + transport behind libaudit.NetlinkSendReceiver with one reused receive buffer and full call log"},
             {"name": "reasm", "path": "/verif/harness/internal/reasm", "serves_properties": ["C01","C02","C03","C10","C19"],
              "kind_free_text": "history generator + recording Stream + trace oracles over the real Reassembler"},
         ],
